@@ -57,3 +57,10 @@ package stubs
 
 // The engine's optional debugger only observes.
 //@ noeffect engine.Debug
+
+// Hex encoding is an injective function of the bytes; only the empty input gives the empty string.
+//@ ufun hexenc(s string) string
+//@ axiom all[string](a, all[string](b, hexenc(a) == hexenc(b) ==> a == b))
+//@ axiom all[string](a, (hexenc(a) == "") == (a == ""))
+//@ extern encoding/hex.EncodeToString
+//@   ensures result == hexenc(str(src))
